@@ -32,7 +32,8 @@ class Unsupported(Exception):
 EXC = {"ValueError": ".value", "EOFError": ".eof", "OverflowError": ".overflow", "NotImplementedError": ".notImpl",
        "TypeError": ".type", "KeyError": ".key", "AttributeError": ".attr", "AssertionError": ".assertion"}
 
-LEAN_TY = {"int": "Int", "bytes": "Bytes", "bool": "Bool", "stream": "Bytes", "none": "Unit"}
+LEAN_TY = {"int": "Int", "bytes": "Bytes", "bool": "Bool", "stream": "Bytes", "none": "Unit", "pfields": "(List PField)", "pfield": "PField"}
+OUT = "yielded"     # accumulator of a generator function: the list of values yielded so far
 RESERVED = {"from", "at", "end", "open", "in", "let", "have", "show", "fun", "do", "then", "else", "if", "match", "with",
             "def", "theorem", "by", "where", "local", "section", "namespace", "instance", "class", "structure", "mut"}
 
@@ -65,7 +66,8 @@ def ann_type(a):
     s = ast.unparse(a)
     s = s.strip("\"'")
     return {"int": "int", "bytes": "bytes", "bool": "bool", "None": "none", "Tuple[int, bytes]": ("int", "bytes"),
-            "Tuple[int, int]": ("int", "int"), "SupportsWrite[bytes]": "stream", "SupportsRead[bytes]": "stream"}.get(s)
+            "Tuple[int, int]": ("int", "int"), "SupportsWrite[bytes]": "stream", "SupportsRead[bytes]": "stream",
+            "Generator[ParsedField, None, None]": "pfields"}.get(s)
 
 
 class Tr:
@@ -92,6 +94,8 @@ class Tr:
                 return [], "(%d : Int)" % v, "int"
             if isinstance(v, bytes):
                 return [], "([%s] : Bytes)" % ", ".join(str(b) for b in v), "bytes"
+            if v is None:
+                return [], "()", "none"
             raise Unsupported("constant %r" % (v,))
         if isinstance(e, ast.Name):
             if e.id in env:
@@ -237,6 +241,18 @@ class Tr:
                 if ta != "int":
                     raise Unsupported("int() of " + str(ta))
                 return b, a, "int"
+            if f.id == "ParsedField" and not e.args:
+                kw = {k.arg: k.value for k in e.keywords}
+                if sorted(kw) != ["number", "raw", "value", "wire_type"]:
+                    raise Unsupported("ParsedField arguments")
+                bn, n, tn = self.expr(kw["number"], env)
+                bw, w, tw = self.expr(kw["wire_type"], env)
+                bv, v, tv = self.expr(kw["value"], env)
+                br, r, tr_ = self.expr(kw["raw"], env)
+                if tn != "int" or tw != "int" or tr_ != "bytes" or tv not in ("int", "bytes"):
+                    raise Unsupported("ParsedField(number: %s, wire_type: %s, value: %s, raw: %s)" % (tn, tw, tv, tr_))
+                vint, payload = (v + ".toNat", "[]") if tv == "int" else ("0", v)
+                return bn + bw + bv + br, "({ num := %s.toNat, wt := %s.toNat, vint := %s, payload := %s, raw := %s } : PField)" % (n, w, vint, payload, r), "pfield"
             if f.id in self.sigs:
                 sg = self.sigs[f.id]
                 binds, args = [], []
@@ -304,6 +320,10 @@ class Tr:
                     names.add(n.target.id)
                 s.generic_visit(n)
 
+            def visit_Yield(s, n):
+                names.add(OUT)
+                s.generic_visit(n)
+
             def visit_Call(s, n):
                 if isinstance(n.func, ast.Attribute) and isinstance(n.func.value, ast.Name) and n.func.attr in ("read", "write", "seek"):
                     names.add(n.func.value.id)
@@ -317,11 +337,16 @@ class Tr:
         return [v for v in env if v in names]
 
     def used(self, stmts):
-        return {x.id for st in stmts for x in ast.walk(st) if isinstance(x, ast.Name)}
+        u = {x.id for st in stmts for x in ast.walk(st) if isinstance(x, ast.Name)}
+        if any(isinstance(x, ast.Yield) for st in stmts for x in ast.walk(st)):
+            u.add(OUT)
+        return u
 
     def ret_text(self, val, env, in_loop):
         """text of `return <val>` (val: Lean text or None)"""
         sg = self.sig
+        if sg.ret == "pfields":
+            val = OUT
         if sg.stream is None:
             r = val if val is not None else "()"
         elif sg.ret == "none":
@@ -351,6 +376,8 @@ class Tr:
             return ".raise " + EXC[exc]
         if isinstance(st, ast.Return):
             if st.value is None:
+                if self.sig.ret not in ("none", "pfields"):
+                    raise Unsupported("bare return in a function that returns a value")
                 return self.ret_text(None, env, in_loop)
             b, t, ty = self.expr(st.value, env)
             if ty != self.sig.ret:
@@ -370,9 +397,7 @@ class Tr:
                     return self.block([iff] + rest, env, k, in_loop)
             b, t, ty = self.expr(st.value, env)
             if isinstance(tgt, ast.Name):
-                if ty == "none":
-                    raise Unsupported("assignment of None")
-                env[tgt.id] = ty
+                env[tgt.id] = ty      # `x = None`: a placeholder of type Unit until a branch gives it a value
                 return self.wrap(b + [("let", nm(tgt.id), t)], go(env))
             if isinstance(tgt, ast.Tuple) and isinstance(ty, tuple) and len(ty) == len(tgt.elts) and all(isinstance(x, ast.Name) for x in tgt.elts):
                 for x, xt in zip(tgt.elts, ty):
@@ -387,6 +412,13 @@ class Tr:
                 raise Unsupported("augmented assignment target")
             val = ast.BinOp(left=ast.Name(id=st.target.id, ctx=ast.Load()), op=st.op, right=st.value)
             return self.block([ast.Assign(targets=[st.target], value=val)] + rest, env, k, in_loop)
+        if isinstance(st, ast.Expr) and isinstance(st.value, ast.Yield):
+            if self.sig.ret != "pfields" or st.value.value is None:
+                raise Unsupported("yield")
+            b, t, ty = self.expr(st.value.value, env)
+            if ty != "pfield":
+                raise Unsupported("yield of " + str(ty))
+            return self.wrap(b + [("let", OUT, "%s ++ [%s]" % (OUT, t))], go(env))
         if isinstance(st, ast.Expr) and isinstance(st.value, ast.Call):
             c = st.value
             f = c.func
@@ -574,11 +606,16 @@ class Tr:
 
     def function(self, body, env):
         def fall_off(env2):
-            if self.sig.ret != "none":
+            if self.sig.ret not in ("none", "pfields"):
                 raise Unsupported("control reaches the end of a function that returns a value")
             return self.ret_text(None, env2, False)
         self.fresh_stream = {}
+        if self.sig.ret == "pfields":
+            env = dict(env)
+            env[OUT] = "pfields"
         txt = self.block(body, env, fall_off, False)
+        if self.sig.ret == "pfields":
+            txt = "let %s : List PField := []\n%s" % (OUT, txt)
         params = " ".join("(%s : %s)" % (nm(p), lty(t)) for p, t, _ in self.sig.params)
         d = "def %s (fuel : Nat) %s : Py.Res %s :=\n%s" % (self.sig.name, params, self.sig.lean_ret(), indent(txt))
         return "\n\n".join(self.aux + [d])
@@ -589,7 +626,7 @@ def indent(s, n=2):
 
 
 # ------------------------------------------------------------------------------------------------ what is translated
-WHOLE = ["dump_varint", "encode_varint", "size_varint", "load_varint", "decode_varint"]
+WHOLE = ["dump_varint", "encode_varint", "size_varint", "load_varint", "decode_varint", "_read_exact", "load_fields"]
 
 # fragments: (lean name, enclosing function, text of the `if` / `elif` test that selects the branch, slice of the
 #             branch body, parameters [(name, type)], return: name of the variable whose final value is returned or None
@@ -688,6 +725,7 @@ def translate(path=SRC):
 
 
 HEADER = """import BpProofs.PyPrelude
+import BpModel.Fields
 /- GENERATED by harness/extract_src.py from the Python AST of src/betterproto/__init__.py -- do not edit.
    Each definition is the statement-by-statement translation of the named function / branch. -/
 set_option linter.unusedVariables false
